@@ -49,6 +49,13 @@ LAYERS = ("t1", "t2stage", "turn")
 def _variant_world(w: Dict[str, Any], r) -> Dict[str, Any]:
     """Same shape (ids, counts) but different content: what two independent states in one process look like."""
     v = copy.deepcopy(w)
+    if r.chance(0.3):
+        # the same graphs built in another order (equal content, different construction history): a second engine state
+        # whose stores compare equal by content but iterate their adjacency lists differently
+        for g in v["graphs"].values():
+            r.shuffle(g["edges"])
+            r.shuffle(g["nodes"])
+        return v
     for g in v["graphs"].values():
         for e in g["edges"]:
             e["weight"] = r.choice([1.0, 0.0, -1.0, 0.4])
@@ -71,6 +78,9 @@ CFG_CHANGES = [
     (["t1", "decay"], [{"mode": "attn_quad", "alpha": 0.8}, {"mode": "exp_floor", "rate": 0.9, "floor": 0.0}]),
     (["t1", "edge_type_mult"], [{"supports": 0.1}, {"supports": 1.0, "associates": 1.0, "contradicts": 1.0, "mentions": 1.0}]),
     (["t3", "max_rag_loops"], [0, 1]), (["t4", "enabled"], [True, False]), (["t4", "cache_bust_mode"], ["none", "on-apply"]),
+    # the perf master switch and the T1 caps it gates (a cached propagation must not survive a change of either)
+    (["perf", "enabled"], [True, False]), (["perf", "enabled"], [True, False]),
+    (["perf", "t1", "caps"], [{"frontier": 1}, {"visited": 1}, {"frontier": 2, "visited": 2}]), (["perf", "t1", "dedupe_window"], [1, 4]),
 ]
 
 
@@ -256,6 +266,19 @@ def _run_arm(program: Dict[str, Any], keep: Optional[Tuple[str, ...]], stats: Op
     return observed
 
 
+def _only_diff(a: Any, b: Any) -> Tuple[str, str]:
+    """The parts of two stage views that differ (for the report)."""
+    if isinstance(a, dict) and isinstance(b, dict):
+        ka = {k: a.get(k) for k in sorted(set(a) | set(b)) if a.get(k) != b.get(k)}
+        kb = {k: b.get(k) for k in ka}
+        if len(ka) == 1:
+            (k, va), = ka.items()
+            sa, sb = _only_diff(va, kb[k])
+            return "%s: %s" % (k, sa), "%s: %s" % (k, sb)
+        return str(ka), str(kb)
+    return str(a), str(b)
+
+
 def _diff(a: List[Dict[str, Any]], b: List[Dict[str, Any]]) -> Optional[Tuple[int, str, Any, Any]]:
     for i, (x, y) in enumerate(zip(a, b)):
         for f in ("t1", "t2", "utter"):
@@ -348,7 +371,7 @@ def execute(program: Dict[str, Any]) -> Dict[str, Any]:
         violations.append({"cls": "cache-not-transparent", "sig": sig, "program": small,
                            "detail": "turn #%d (%s): %s with caches on = %s ; with caches off = %s" % (
                                i, program["ops"] and [o for o in program["ops"] if o["op"] == "turn"][i].get("text"), field,
-                               str(a)[:260], str(b)[:260])})
+                               _only_diff(a, b)[0][:400], _only_diff(a, b)[1][:400])})
     elif leak_c is not None and leak_p is None:
         small, sig = _explain(program, "leak")
         violations.append({"cls": "owner-scope", "sig": sig, "program": small, "detail": "caches on, turn %d: %s" % leak_c})
